@@ -29,5 +29,5 @@ TESTS = {
     "C17": [s1("TestC17_SeqModel", 20000, 300000), s1("TestC17_Concurrent", 300, 6000, timeout_t=2400), s1("TestC17_S3", 6000, 120000, timeout_t=2400), s1("TestC17_S1ReadBursts", 8000, 120000), s1("TestC17_StripeChurn", 1500, 40000, timeout_t=2400), s1("TestC17_S4CacheReads", 300, 3000, timeout_t=2400), s1("TestC17_S4ReadExtends", 150, 2000, timeout_t=2400)],
     "C18": [s1("TestC18_Sketch", 150000, 1500000, qshards=8), s1("TestC18_Admission", 60000, 1000000), s1("TestC18_CacheEstimates", 20000, 300000)],
     "C19": [s1("TestC19_S1SaveLoad", 40000, 200000, qshards=8), s1("TestC19_S4Readers", 400, 5000, timeout_t=2400), s1("TestC19_KeyTypes", 4000, 60000, timeout_t=2400)],
-    "C20": [s1("TestC20_S1Stats", 40000, 250000, qshards=6), s1("TestC20_S4Stats", 300, 3000, timeout_t=2400), s1("TestC20_S1Mid", 3000, 40000, timeout_t=2400), s1("TestC20_CounterModel", 2000, 30000, qshards=2, tshards=8)],
+    "C20": [s1("TestC20_S1Stats", 40000, 250000, qshards=6), s1("TestC20_S4Stats", 300, 3000, timeout_t=2400), s1("TestC20_S1Mid", 3000, 40000, timeout_t=2400), s1("TestC20_CounterModel", 2000, 30000, qshards=2, tshards=8), s1("TestC20_ComputeClock", 20000, 300000, qshards=2, tshards=8)],
 }
